@@ -29,15 +29,24 @@ Classes == {"zero", "minus-one", "int-min", "plus-one", "minus-one-rel", "huge",
 Victims == {"daemon-sender", "daemon-receiver", "client"}
 FieldsOf(v) == CASE v = "daemon-sender" -> ToDaemonSender [] v = "daemon-receiver" -> ToDaemonReceiver [] OTHER -> ToClient
 
-VARIABLES victim, field, class, pc, alive, nextOK
-vars == <<victim, field, class, pc, alive, nextOK>>
+(* PAIR mutations: two fields of the same checksum header damaged together (a zero block length is harmless  *)
+(* while a non-zero remainder covers for it, and so on): header groups x two distinct fields x small classes *)
+HeaderGroup(v) == IF v = "daemon-sender" THEN {"req.count", "req.blk", "req.s2", "req.rem"} ELSE {"data.count", "data.blk", "data.s2", "data.rem"}
+PairClasses == {"zero", "minus-one", "plus-one", "huge"}
+NoPair == "none"
+
+VARIABLES victim, field, class, field2, class2, pc, alive, nextOK
+vars == <<victim, field, class, field2, class2, pc, alive, nextOK>>
 Init == /\ victim \in Victims /\ field \in FieldsOf(victim) /\ class \in Classes
+        /\ \/ field2 = NoPair /\ class2 = NoPair
+           \/ /\ field \in HeaderGroup(victim) /\ class \in PairClasses
+              /\ field2 \in HeaderGroup(victim) \ {field} /\ class2 \in PairClasses
         /\ pc = "session" /\ alive = TRUE /\ nextOK = "untested"
 (* the damaged field arrives: the session ends - with an error, or (if the damage happens to be harmless) normally *)
-EndSession == /\ pc = "session" /\ pc' \in {"ended-error", "ended-ok"} /\ UNCHANGED <<victim, field, class, alive, nextOK>>
+EndSession == /\ pc = "session" /\ pc' \in {"ended-error", "ended-ok"} /\ UNCHANGED <<victim, field, class, field2, class2, alive, nextOK>>
 (* a daemon then serves the canonical request of another client *)
 NextRequest == /\ pc \in {"ended-error", "ended-ok"} /\ victim # "client" /\ nextOK = "untested"
-               /\ nextOK' = "ok" /\ UNCHANGED <<victim, field, class, pc, alive>>
+               /\ nextOK' = "ok" /\ UNCHANGED <<victim, field, class, field2, class2, pc, alive>>
 Done == /\ (nextOK # "untested" \/ (victim = "client" /\ pc # "session")) /\ UNCHANGED vars
 Next == EndSession \/ NextRequest \/ Done
 Spec == Init /\ [][Next]_vars /\ WF_vars(Next)
@@ -47,7 +56,7 @@ SessionEnds == <>(pc # "session")
 DaemonKeepsServing == <>(victim = "client" \/ nextOK = "ok")
 
 OutFile == IOEnv.VERIF_OUT
-Emit == (pc = "session") => CSVWrite("%1$s", <<ToJson([victim |-> victim, field |-> field, class |-> class])>>, OutFile)
+Emit == (pc = "session") => CSVWrite("%1$s", <<ToJson([victim |-> victim, field |-> field, class |-> class, field2 |-> (IF field2 = NoPair THEN "" ELSE field2), class2 |-> (IF class2 = NoPair THEN "" ELSE class2)])>>, OutFile)
 GenNext == FALSE /\ UNCHANGED vars
 GenSpec == Init /\ [][GenNext]_vars
 =============================================================================
